@@ -108,6 +108,18 @@ def check_rigid(case):
                 .format(common.show(d, 200), dims))
 
 
+def mark_real(spec, names):
+    """ Flag the boxes called `names` (all boxes if None) as real-valued. """
+    layers = []
+    for b, off in spec["layers"]:
+        if b["k"] == "bubble":
+            b = dict(b, inside=mark_real(b["inside"], names))
+        elif b["k"] == "box" and (names is None or b["name"] in names):
+            b = dict(b, real=True)
+        layers.append([b, off])
+    return dict(spec, layers=layers)
+
+
 @st.composite
 def tensor_cases(draw, tier):
     pool = []
@@ -126,6 +138,12 @@ def tensor_cases(draw, tier):
                     "layers": [[b, 0]] + tail["layers"]}
     par = draw(gen.diagrams_to("tensor", spec["dom"], specs.spec_cod(spec),
                                max_boxes=3, max_width=4, pool=pool))
+    # some generators carry real (integer) data: bubble functions may then
+    # leave the dtype of the array they are applied to
+    real = draw(st.sets(st.sampled_from(gen.BOXNAMES), max_size=3))
+    if draw(st.booleans()):
+        real = None   # all of them
+    spec, par = mark_real(spec, real), mark_real(par, real)
     return {"d": spec, "par": par,
             "whole": draw(st.sampled_from([None] + sorted(
                 classes.BUBBLE_FUNCS)))}
